@@ -38,6 +38,7 @@ inductive FErr where
   | dictConversion        -- _SF_DICT_CONVERSION_FAILURE
   | tooManyDims           -- _TOO_MANY_FEATURE_DIMS
   | duplicateName         -- _DUPLICATE_FEATURE_NAME
+  | reservedName          -- _RESERVED_FEATURE_NAME: the name is already a column of all_data
 deriving Repr, DecidableEq
 
 def FErr.fmt : FErr → String
@@ -47,6 +48,7 @@ def FErr.fmt : FErr → String
   | .dictConversion => "err:dict-conversion"
   | .tooManyDims => "err:too-many-dims"
   | .duplicateName => "err:duplicate"
+  | .reservedName => "err:reserved"
 
 /-- the default name: `"{0}{1}".format(base_name, index)`, lifted from `GroupFeature.__init__` -/
 abbrev defaultName (base : String) (i : Nat) : String := FeatureNamesSrc.defaultName base i
@@ -91,25 +93,37 @@ def firstDuplicate : List String → List String → Option String
   | _, [] => none
   | seen, n :: ns => if n ∈ seen then some n else firstDuplicate (n :: seen) ns
 
+/-- the check that precedes the insertion of the feature columns: a feature whose name is already a column
+    of `all_data` (y_true, y_pred, a sample-parameter column) is rejected -/
+def reservedClash (dataCols : List String) (s cn : List String) : Bool :=
+  FeatureNamesSrc.reservedCheck &&
+    (if FeatureNamesSrc.reservedSensitiveFirst then s ++ cn else cn ++ s).any (fun n => dataCols.contains n)
+
 /-- `MetricFrame.__init__`: sensitive features first, then (optional) control features, then the
-    duplicate check over `sf names ++ cf names`.  Returns (`sensitive_levels`, `control_levels`). -/
-def featureNames (sfBase cfBase : String) (sf : Container) (cf : Option Container) :
+    reserved-name check against the columns `dataCols` of `all_data`, then the duplicate check over
+    `sf names ++ cf names`.  Returns (`sensitive_levels`, `control_levels`). -/
+def featureNames (sfBase cfBase : String) (dataCols : List String) (sf : Container) (cf : Option Container) :
     Except FErr (List String × Option (List String)) :=
   match processFeatures sfBase sf with
   | .error e => .error e
   | .ok s =>
     match cf with
-    | none => if (firstDuplicate [] s).isSome then .error .duplicateName else .ok (s, none)
+    | none =>
+      if reservedClash dataCols s [] then .error .reservedName
+      else if (firstDuplicate [] s).isSome then .error .duplicateName else .ok (s, none)
     | some c =>
       match processFeatures cfBase c with
       | .error e => .error e
       | .ok cn =>
+        if reservedClash dataCols s cn then .error .reservedName else
         let namelist := if FeatureNamesSrc.sensitiveNamesFirst then s ++ cn else cn ++ s
         if (firstDuplicate [] namelist).isSome then .error .duplicateName else .ok (s, some cn)
 
-/-- `MetricFrame(...)` with the base names lifted from `__init__` -/
-def metricFrameNames (sf : Container) (cf : Option Container) : Except FErr (List String × Option (List String)) :=
-  featureNames FeatureNamesSrc.sensitiveBase FeatureNamesSrc.controlBase sf cf
+/-- `MetricFrame(...)` with the base names lifted from `__init__`; `dataCols` = `all_data.columns` after the
+    sample parameters were stored (`["y_true", "y_pred"]` when there are none) -/
+def metricFrameNames (dataCols : List String) (sf : Container) (cf : Option Container) :
+    Except FErr (List String × Option (List String)) :=
+  featureNames FeatureNamesSrc.sensitiveBase FeatureNamesSrc.controlBase dataCols sf cf
 
 /-! ### driver glue -/
 
@@ -137,14 +151,15 @@ def parseContainer (s : String) : Option (Option Container) :=
     pure (some (.array d k))
   | _ => none
 
-/-- op: `fn.names <sf container> <cf container|absent>` ->
+/-- op: `fn.names <data columns> <sf container> <cf container|absent>` ->
     `<sensitive_levels> <control_levels|none>` or `err:<kind>` -/
 def handle (toks : List String) : Option String :=
   match toks with
-  | ["fn.names", sf, cf] => do
+  | ["fn.names", dc, sf, cf] => do
+    let dc ← Proto.parseStrs dc
     let sf ← (← parseContainer sf)
     let cf ← parseContainer cf
-    match metricFrameNames sf cf with
+    match metricFrameNames dc sf cf with
     | .error e => pure e.fmt
     | .ok (s, c) => pure (Proto.fmtStrs s ++ " " ++ (match c with | none => "none" | some c => Proto.fmtStrs c))
   | _ => none
